@@ -244,30 +244,29 @@ Section Machine.
   Definition q_aberration : M := seqM q_invariant (seqM q_marginal q_chief).
 
   (** ** analyses (wavefront.py, psf.py, mtf.py, analysis/*.py): loops of traces followed by getter reads *)
-  Definition q_wavefront (nf nw : nat) : M :=
-    seqM q_XPL (foreach (seq 0 nf) (fun i => foreach (seq 0 nw) (fun j =>
-      seqM (q_trace (100 + 2 * (i * nw + j)))                       (* chief ray, trace_generic *)
-        (seqM (withP (fun q => if field_is_angle (snd q) then q_EPD else idM))      (* _correct_tilt *)
-          (seqM (q_trace (101 + 2 * (i * nw + j)))                  (* the pupil distribution *)
-                (withP (fun q => if field_is_angle (snd q) then q_EPD else idM))))))).
-  Definition q_spot (nf nw : nat) : M :=
-    foreach (seq 0 nf) (fun i => foreach (seq 0 nw) (fun j => q_trace (200 + i * nw + j))).
-  Definition q_rayfan (nf nw : nat) : M :=
-    foreach (seq 0 nf) (fun i => foreach (seq 0 nw) (fun j =>
-      seqM (q_trace (300 + 2 * (i * nw + j))) (q_trace (301 + 2 * (i * nw + j))))).
-  Definition q_pupil_aberration (nf nw : nat) : M :=
-    seqM (q_ptrace 20) (seqM (q_ptrace 21) (q_rayfan nf nw)).
-  Definition q_distortion (nw : nat) : M := foreach (seq 0 nw) (fun j => q_trace (400 + j)).
-  Definition q_field_curvature (nw : nat) : M :=
-    foreach (seq 0 nw) (fun j => seqM (q_trace (500 + 2 * j)) (q_trace (501 + 2 * j))).
-  Definition q_grid_distortion : M := seqM (q_trace 600) (q_trace 601).
+  (** the site arguments name the call sites of the traces inside (the launch function is keyed by them) *)
+  Definition tilt_EPD : M := withP (fun q => if field_is_angle (snd q) then q_EPD else idM).   (* _correct_tilt *)
+  Definition q_wavefront (nf nw sc sp : nat) : M :=
+    seqM q_XPL (foreach (seq 0 nf) (fun _ => foreach (seq 0 nw) (fun _ =>
+      seqM (q_trace sc)                        (* chief ray alone, trace_generic *)
+        (seqM tilt_EPD (seqM (q_trace sp)      (* the pupil distribution *)
+                             tilt_EPD))))).
+  Definition q_spot (nf nw s : nat) : M :=
+    foreach (seq 0 nf) (fun _ => foreach (seq 0 nw) (fun _ => q_trace s)).
+  Definition q_rayfan (nf nw sx sy : nat) : M :=
+    foreach (seq 0 nf) (fun _ => foreach (seq 0 nw) (fun _ => seqM (q_trace sx) (q_trace sy))).
+  Definition q_pupil_aberration (nf nw s1 s2 sx sy : nat) : M :=
+    seqM (q_ptrace s1) (seqM (q_ptrace s2) (q_rayfan nf nw sx sy)).
+  Definition q_distortion (nw s : nat) : M := foreach (seq 0 nw) (fun _ => q_trace s).
+  Definition q_field_curvature (nw s : nat) : M :=
+    foreach (seq 0 nw) (fun _ => seqM (q_trace s) (q_trace s)).
+  Definition q_grid_distortion (s1 s2 : nat) : M := seqM (q_trace s1) (q_trace s2).
   Definition q_yybar : M := seqM q_marginal q_chief.
-  Definition q_fftmtf (nf : nat) : M :=
-    seqM q_FNO (seqM (withP (fun q => if obj_infinite q then idM else seqM q_XPD (seqM q_EPD q_magnification)))
-                     (foreach (seq 0 nf) (fun i => q_wavefront 1 1))).
-  Definition q_geometric_mtf (nf : nat) : M :=
-    seqM q_FNO (seqM (withP (fun q => if obj_infinite q then idM else seqM q_XPD (seqM q_EPD q_magnification)))
-                     (q_spot nf 1)).
+  Definition working_fno : M :=
+    seqM q_FNO (withP (fun q => if obj_infinite q then idM else seqM q_XPD (seqM q_EPD q_magnification))).
+  Definition q_fftmtf (nf sc sp : nat) : M :=
+    seqM working_fno (foreach (seq 0 nf) (fun _ => q_wavefront 1 1 sc sp)).
+  Definition q_geometric_mtf (nf s : nat) : M := seqM working_fno (q_spot nf 1 s).
 End Machine.
 
 Arguments Ret {V Sf G Ph A}. Arguments Presc {V Sf G Ph A}. Arguments ParFwd {V Sf G Ph A}.
@@ -321,4 +320,15 @@ Section NewtonBatch.
     | 0%nat => 0%nat
     | S f => if all_small rs then 1%nat else S (batch_count f (map n_step rs))
     end.
+  (** NewtonRaphsonGeometry.distance: start at the base-sphere hit, iterate, report |hit - start| (NaN when the
+      hit lies behind the ray); [start] is the regenerated kernel k_nr_sphere *)
+  Definition nb_t (r r' : nray) : T :=
+    let '((L, M, N), (x0, y0, z0)) := r in
+    let '(_, (x, y, z)) := r' in
+    let dx := sub x x0 in let dy := sub y y0 in let dz := sub z z0 in
+    let t := sqrt_ (add (add (mul dx dx) (mul dy dy)) (mul dz dz)) in
+    if ltb_ (add (add (mul dx L) (mul dy M)) (mul dz N)) (ofZ 0) then nan_ else t.
+  Definition nb_distance (start : nray -> pt) (fuel : nat) (rays : list nray) : list T :=
+    let res := newton_batch fuel (map (fun r => (fst r, start r)) rays) in
+    map (fun p => nb_t (fst p) (snd p)) (combine rays res).
 End NewtonBatch.
